@@ -3,6 +3,6 @@ CONSTANT Configs <- StopTimeoutQuick
 SPECIFICATION MCSpec
 VIEW MCView
 CONSTRAINT ExecBound
-INVARIANTS TypeOK C05_NoLateFresh C05_NoLateStart C05_TermReachesAll
+INVARIANTS TypeOK C05_NoLateFresh C05_NoLateStart C05_TermReachesAll C05_KillReaches
 
 CHECK_DEADLOCK FALSE
